@@ -170,7 +170,7 @@ CHECKS = {
         "mc": [MC_FILTERSYNC, MC_WRITES, MC_WRITES_SPLIT],
         "drivers": [wsync("sync", 8, 60, 1, 4), wsync("scripts", 8, 60, 1, 4), wsync("fork", 8, 60, 1, 4),
                     # the same histories without the write-level observation (cheaper: more of them)
-                    fsync("sync", 20, 150, 1, 4), fsync("fork", 20, 100, 1, 4),
+                    fsync("sync", 25, 150, 2, 4), fsync("fork", 20, 100, 1, 4),
                     {"name": "filtersync-crash", "driver": "filtersync", "args": ["mode=crash"], "trace_module": "Trace_FilterSync",
                      "n": {"quick": 1, "thorough": 6}, "procs": {"quick": 6, "thorough": 12},
                      "tier_args": {"quick": ["maxk=70"], "thorough": ["maxk=100000"]}},
